@@ -21,6 +21,12 @@ Theorem C11_autohead_get : forall g path hs hdr,
   get_in g path hs hdr = route_in g m_get path hs hdr :: (if autohead g then [route_in g m_head path hs false] else []).
 Proof. reflexivity. Qed.
 
+(* a ComboRoute held in a variable reads the AutoHead setting when .Get registers, not when Combo made it;
+   a toggle in between counts from there on, also for the statements after the Combo *)
+Theorem C11_combo_autohead_at_get : forall ah b pp ph path common added rest,
+  combo_at ah pp ph path common added (CAuto b :: rest) = combo_at b pp ph path common added rest.
+Proof. reflexivity. Qed.
+
 (* .Headers(...) on what Routes returns constrains the route of the last method only *)
 Theorem C11_headers_routes_last : forall hdr l r,
   mark_last hdr (l ++ [r]) = l ++ [mkfreg (fr_method r) (fr_path r) (fr_hs r) hdr].
@@ -44,6 +50,13 @@ Example C11_example :
   = Some [mkfreg m_get [47;97;47;98]%N [1;2] true; mkfreg m_head [47;97;47;98]%N [1;2] false;
           mkfreg [80;79;83;84]%N [47;97;47;99;47;100]%N [1;3;4] false;
           mkfreg m_get [47;101]%N [5] false; mkfreg m_head [47;101]%N [5] false].
+Proof. vm_compute. reflexivity. Qed.
+
+Example C11_example_combo_toggle :
+  exec [SCombo [47;99]%N [] [CAuto true; CUse m_get [1]]; SCombo [47;100]%N [] [CUse m_get [2]; CAuto false]; SGet [47;101]%N [3] false]
+  = Some [mkfreg m_get [47;99]%N [1] false; mkfreg m_head [47;99]%N [1] false;
+          mkfreg m_get [47;100]%N [2] false; mkfreg m_head [47;100]%N [2] false;
+          mkfreg m_get [47;101]%N [3] false].
 Proof. vm_compute. reflexivity. Qed.
 
 Example C11_example_headers_wrap :
